@@ -5,6 +5,7 @@ use ndarray::{ArrayD, ArrayViewD, ArrayViewMutD, Axis, IxDyn, ShapeBuilder, Slic
 use ndarray_interp::interp1d::cubic_spline::SplineNum;
 
 use crate::q::Q;
+use crate::z::Z;
 
 pub struct Toks<'a> {
     it: std::str::SplitWhitespace<'a>,
@@ -67,6 +68,25 @@ impl Scalar for Q {
     }
     fn junk() -> Self {
         Q::from_ratio(-123_456_789_123, 9_876_543_211)
+    }
+}
+
+impl Scalar for Z {
+    const TAG: &'static str = "I";
+    fn parse(s: &str) -> Option<Self> {
+        s.parse::<i64>().ok().map(Z)
+    }
+    fn show(self) -> String {
+        self.0.to_string()
+    }
+    fn poison() -> Self {
+        Z(-987_654_321_987)
+    }
+    fn is_poison(self) -> bool {
+        self == Self::poison()
+    }
+    fn junk() -> Self {
+        Z(-123_456_789_123)
     }
 }
 
